@@ -76,12 +76,24 @@ pub fn enc_opt(s: Option<&str>) -> String {
 
 /// run `f`, turning an unwinding panic into `Err(())`
 pub fn guard<T>(f: impl FnOnce() -> T) -> Result<T, ()> {
-    catch_unwind(AssertUnwindSafe(f)).map_err(|_| ())
+    IN_GUARD.with(|g| g.set(g.get() + 1));
+    let r = catch_unwind(AssertUnwindSafe(f)).map_err(|_| ());
+    IN_GUARD.with(|g| g.set(g.get() - 1));
+    r
 }
 
-/// silence the default panic message (panics are expected and reported through `guard`)
+thread_local! {
+    static IN_GUARD: std::cell::Cell<u32> = std::cell::Cell::new(0);
+}
+
+/// silence the panic message of panics inside `guard` (they are expected and reported); a panic of the harness
+/// itself is still printed
 pub fn quiet_panics() {
-    std::panic::set_hook(Box::new(|_| {}));
+    std::panic::set_hook(Box::new(|info| {
+        if IN_GUARD.with(|g| g.get()) == 0 {
+            eprintln!("harness panic: {}", info);
+        }
+    }));
 }
 
 /// numeric payload of `NameId(3)`, `PrefixId(0)`, ... via Debug
